@@ -192,6 +192,15 @@ impl<'a> StagesBuilder<'a> {
 
         let new_time = system.running_time();
 
+        // A dependency only has to be crossed off once, however often it was
+        // named, and dependencies registered in front of the barrier already
+        // run before every stage that is considered below.
+        dep.sort();
+        dep.dedup();
+        for stage in 0..self.barrier {
+            self.remove_ids(stage, &mut dep);
+        }
+
         let target = self.insertion_target(&reads, &writes, &mut dep, new_time);
 
         let (stage, group) = match target {
